@@ -172,6 +172,9 @@ func instanceBody() *schema.BodySchema {
 func bucketBody() *schema.BodySchema {
 	return &schema.BodySchema{
 		Detail: "bucket",
+		// the same address is hover URL and documentation link (the two differ only in the utm_content the decoder adds)
+		DocsLink: &schema.DocsLink{URL: "https://example.com/docs/aws_s3_bucket", Tooltip: "bucket docs"},
+		HoverURL: "https://example.com/docs/aws_s3_bucket",
 		Attributes: map[string]*schema.AttributeSchema{
 			"bucket": {IsOptional: true, Constraint: schema.AnyExpression{OfType: cty.String}, Description: md("bucket name")},
 			"acl": {IsOptional: true, Constraint: schema.OneOf{
@@ -1263,7 +1266,10 @@ func modsWorld(unreadable bool) *World {
 	vars := &World{Name: "mods-vars", Schema: varsSchema, Funcs: stdFuncs(), Docs: map[string]string{"x.tfvars": "name = \"n\"\nregion = \"eu\"\n"}}
 	w := &World{Name: "mods", Schema: modsSchemaRoot(), Funcs: stdFuncs(),
 		Docs: map[string]string{"main.tf": "variable \"name\" {\n  type = string\n}\nvariable \"region\" {\n  default = \"eu\"\n}\nmodule \"m\" {\n  source = \"./mod\"\n  name   = var.name\n  size   = 3\n}\n" +
-			"module \"other\" {\n  source = \"./unknown\"\n  name   = 1\n}\nmodule \"again\" {\n  source = \"./\"\n  region = \"eu\"\n}\noutput \"o\" {\n  value = [module.m.x, var.region, var.name]\n}\n"},
+			"module \"other\" {\n  source = \"./unknown\"\n  name   = 1\n}\nmodule \"again\" {\n  source = \"./\"\n  region = \"eu\"\n}\noutput \"o\" {\n  value = [module.m.x, var.region, var.name]\n}\n" +
+			// many origins, several of them sharing a range (a local origin and the implied origin of module.m.x): their order must not depend on anything
+			"module \"wide\" {\n  source = \"./mod\"\n  name   = module.m.x\n  size   = module.m.x\n}\n" +
+			"output \"many\" {\n  value = [module.m.x, var.name, module.m.x, var.region, module.m.x, var.name, module.m.x, var.region, module.m.x]\n}\n"},
 		Peers: map[string]*World{"p2": sub, "p1#vars": vars}}
 	if unreadable {
 		w.Name = "modsbroken"
